@@ -16,6 +16,7 @@ import (
 )
 
 type harnessMeta struct {
+	Dir      string   `json:"dir"`   // run in this directory (relative to the verification root) instead of overlaying into the repo
 	Pkg      string   `json:"pkg"`   // directory relative to the repo root
 	Test     string   `json:"test"`  // test function name
 	Files    []string `json:"files"` // files to overlay into Pkg
@@ -73,6 +74,11 @@ func runBoundedHarness(o *runOpts, name string) boundedResult {
 	start := time.Now()
 	cmd := exec.Command("go", "test", "-overlay", ovPath, "-vet=off", "-v", "-count=1", fmt.Sprintf("-timeout=%ds", timeout), "-run", "^"+m.Test+"$", "./"+m.Pkg)
 	cmd.Dir = o.repo
+	if m.Dir != "" {
+		// a fixture module of its own (go.mod replaces the gleece module with the repository under check)
+		cmd = exec.Command("go", "test", "-vet=off", "-v", "-count=1", fmt.Sprintf("-timeout=%ds", timeout), "-run", "^"+m.Test+"$", ".")
+		cmd.Dir = filepath.Join(o.verif, m.Dir)
+	}
 	cmd.Env = append(os.Environ(), "GOFLAGS=-mod=mod", "GOPROXY=off", "VERIF_TIER="+o.tier, "VERIF_SEED="+strconv.Itoa(seedFromEnv()), "GOCACHE="+goCacheDir())
 	out, runErr := cmd.CombinedOutput()
 	res.Seconds = time.Since(start).Seconds()
